@@ -52,7 +52,7 @@ def main(pid, tier, replay_path=None):
             binary = vlib.build_harness(sc, '.', instrumented_pool=True, race=True)
             muxbin = vlib.build_harness(sc, './mux', instrumented_pool=True, race=True)
             scs = scenarios_from_tlc(sc)
-            rounds = 40 if tier == 'quick' else 600
+            rounds = 300 if tier == 'quick' else 1200
             for i, s in enumerate(scs):
                 s['id'] = 'race-%d' % i
                 s['rounds'] = rounds
@@ -68,10 +68,10 @@ def main(pid, tier, replay_path=None):
                     json.dump({'scenarios': part}, open(inp, 'w'))
                     jobs.append(('scen%d' % k, [binary, '-test.run', '^TestVerifRaceScenarios$', '-test.count=1', '-test.timeout', '1500s'], dict(env0, VERIF_IN=inp, VERIF_OUT=outp), sc.path('repo')))
             # the free-running drivers of the other checks, under the detector
-            sess = stream.gen_sessions(16 if tier == 'quick' else 300, seed, False)
+            sess = stream.gen_sessions(80 if tier == 'quick' else 300, seed, False)
             json.dump({'sessions': sess, 'parallel': 4}, open(sc.path('rs_in.json'), 'w'))
             jobs.append(('stream', [binary, '-test.run', '^TestVerifStreamFree$', '-test.count=1', '-test.timeout', '1500s'], dict(env0, VERIF_IN=sc.path('rs_in.json'), VERIF_OUT=sc.path('rs_out.ndjson')), sc.path('repo')))
-            progs = fdt.gen(12 if tier == 'quick' else 200, seed)
+            progs = fdt.gen(120 if tier == 'quick' else 400, seed)
             progs = [p for p in progs if p['kinds'] != ['poller_nofile']]
             json.dump({'scenarios': progs}, open(sc.path('rf_in.json'), 'w'))
             jobs.append(('fd', [binary, '-test.run', '^TestVerifFdPrograms$', '-test.count=1', '-test.timeout', '1500s'], dict(env0, VERIF_IN=sc.path('rf_in.json'), VERIF_OUT=sc.path('rf_out.ndjson')), sc.path('repo')))
